@@ -507,11 +507,14 @@ def main():
     smask = fn_body(bitsrc, r"const\s+fn\s+sum_masks\b[^{]*\{")
     gbnd = fn_body(rngsrc, r"fn\s+gen_bounded\b[^{]*\{")
     srank = re.search(r"bit::find_bit\s*\(\s*candidates\s*,\s*\|count\|\s*\{(.*?)\}\s*\)", pmsrc, re.S)
-    if None in (fbit, smask, gbnd, srank):
+    ssimpl = re.search(r"impl<'a> ShuffledStealers<'a>\s*\{", pmsrc)
+    ssnew = fn_body(pmsrc[ssimpl.end():], r"fn\s+new\b[^{]*\{") if ssimpl else None
+    if None in (fbit, smask, gbnd, srank, ssnew):
         die("find_bit / sum_masks / gen_bounded / the rank closure of ShuffledStealers::new not found")
     out.append("/-- body of `find_bit` (util/bit.rs), comments stripped, white space normalised -/\ndef findBitSrc : String := " + json.dumps(norm(fbit).strip()))
     out.append("/-- body of `sum_masks` (util/bit.rs) -/\ndef sumMasksSrc : String := " + json.dumps(norm(smask).strip()))
     out.append("/-- body of `Rng::gen_bounded` (util/rng.rs) -/\ndef genBoundedSrc : String := " + json.dumps(norm(gbnd).strip()))
+    out.append("/-- body of `ShuffledStealers::new` (pool_manager.rs) -/\ndef stealNewSrc : String := " + json.dumps(norm(ssnew).strip()))
     out.append("/-- the rank closure handed to `find_bit` by `ShuffledStealers::new` (pool_manager.rs) -/\ndef stealRankSrc : String := " + json.dumps(norm(srank.group(1)).strip()))
     out.append("")
     # names inside the expressions refer to the other constants
